@@ -260,6 +260,32 @@ def x_fromregex( ctx ):
             res.ok( src, dup[0], "the origin's wildcard is copied to every intermediate state (presence tested with the encoded key)" )
         else:
             raise AnalysisError( 'from_regex: wildcard-presence test not recognised: %s' % norm_text( t ))
+    # (d) whether the symbol's TARGET is dead is consulted before any intermediate state is created: a multi-symbol encoding of a symbol that
+    # cannot continue the sentence is otherwise expanded like any other - its leading symbols are consumed, and the machine fails in a
+    # non-terminal intermediate state instead of stopping (accepting) ahead of the symbol
+    NXT = L.name( '_nxt' )
+    if NXT is not None:
+        from .cfg import CFG
+        cfg = CFG( fn )
+        def consults_target( e ):
+            for c in ast.walk( e ):
+                if is_call_to( c, STATES + '.get' ) and c.args and dotted( c.args[0] ) == NXT:
+                    return True
+                if isinstance( c, ast.Compare ) and len( c.ops ) == 1 and isinstance( c.ops[0], ( ast.In, ast.NotIn )) and dotted( c.left ) == NXT and dotted( c.comparators[0] ) == STATES:
+                    return True
+            return False
+        # a local that holds the consultation counts as well ( dead = states.get( nxt ) is None; if dead and ... )
+        holders = { dotted( a_.targets[0] ) for a_ in ast.walk( sl ) if isinstance( a_, ast.Assign ) and len( a_.targets ) == 1 and isinstance( a_.targets[0], ast.Name ) and consults_target( a_.value ) }
+        tests = [ n for n in cfg.nodes if n.kind == 'test' and n.expr is not None and ( consults_target( n.expr ) or names_in( n.expr ) & holders ) ]
+        heads = [ n for n in cfg.nodes if n.kind == 'for' and n.stmt is sl ]
+        creates = [ n for n in cfg.nodes if n.kind == 'stmt' and n.stmt is newst ]
+        if not heads or not creates:
+            raise AnalysisError( 'from_regex: CFG nodes of the symbol loop / the intermediate-state creation not found' )
+        if tests and all( cfg.must_pass( h, c, tests, correlated=False ) for h in heads for c in creates ):
+            res.ok( src, newst, 'whether the target state is dead is tested ( %s.get( %s ) ... ) on every path from the symbol to the creation of an intermediate state' % ( STATES, NXT ))
+        else:
+            res.bad( src, newst, 'from_regex adds the intermediate states of a multi-symbol encoding before it looks whether the target ( %s ) is dead' % NXT,
+                     "the leading symbols of a symbol that cannot continue the sentence are consumed: regex_bytes( 'π' ) on 'ππ' consumes 3 bytes and fails NonTerminal instead of consuming 2 and accepting" )
     # ---- result: non-consuming copy of the initial state
     rets = [ r for r in fn.body if isinstance( r, ast.Return ) ]
     if rets and isinstance( rets[-1].value, ast.Tuple ) and pmatch( rets[-1].value.elts[-1], 'state( %s[machine.initial] )' % STATES ) is not None:
